@@ -245,6 +245,10 @@ func (t *textSpan) draw(dst backend.Canvas, attrs *attributes, svg *SVGImage, di
 			bbox.union(pointsBb)
 		}
 
+		if dims.fontSize < 1e-6 { // same limit as for HTML text : nothing to draw
+			continue
+		}
+
 		layout.ApplyJustification()
 
 		doFill, doStroke := svg.applyPainters(dst, &svgNode{graphicContent: t, attributes: *attrs}, dims)
